@@ -57,6 +57,8 @@ def decorate(rng, g):
         k = E.kind(e)
         if k == 'call':
             return ('call', ren.get(e[1], e[1]))
+        if k == 'include':
+            return ('include', ren.get(e[1], e[1]))
         if k in ('seq', 'choice'):
             return (k, [rn(x) for x in e[1]])
         if k in ('group', 'skipgroup', 'opt', 'skipto'):
@@ -239,7 +241,7 @@ def shard(col, shard_i, ngrammars, ninputs):
             texts = [' '.join(rng.choice(words) for _ in range(rng.randint(1, 3))) for _ in range(ninputs)]
             col.count('family.keywords')
         else:
-            g = G.gen_grammar(rng, G.GenCfg(names=0.2, overrides=0.06, skipto=0.04, assoc=0.03), depth=rng.choice([2, 3]))
+            g = G.gen_grammar(rng, G.GenCfg(names=0.2, overrides=0.06, skipto=0.04, assoc=0.03, includes=(0.3 if gi % 4 == 1 else 0.0)), depth=rng.choice([2, 3]))
             g = decorate(rng, g)
             g, fam = widen(rng, g)
             col.count('family.' + fam)
